@@ -72,6 +72,13 @@ def bases(tier):
                                      maint_desc="para", qc_desc="own", extent_desc="markdown"),
                                 dict(keywords=(1, 1, 1), abstract=("split", 20), rights="para", dt=dict(rd="direct")))):
         out.append((f"rich:{i}", gtree.assign_ids(from_listspec(c19.build(params))), 2))
+    # a document with a default namespace declared on an inner element (nsmap key None), as stmml unit lists have
+    doc = ('<eml:eml xmlns:eml="https://eml.ecoinformatics.org/eml-2.2.0" packageId="p.1.1" system="s"><dataset><title>t</title></dataset>'
+           '<additionalMetadata><metadata><unitList xmlns="http://www.xml-cml.org/schema/stmml-1.2"><unit id="x" name="x"/>'
+           '</unitList></metadata></additionalMetadata></eml:eml>')
+    root = metapype_io.from_xml(doc)
+    out.append(("default-namespace", gtree.assign_ids(gspec_of(root)), 3))
+    core.reset_store()
     # small trees with characters the EML exporter treats specially
     specials = ["a<b", "a&b", "a>b", "\"q\" 'r'", "a&amp;b", "x&lt;y", "<para>p</para>", "pre <para>p</para> post &gt;", "é\U0001F600", ""]
     for i, txt in enumerate(specials):
@@ -276,6 +283,18 @@ def op_insert_index(c):
     return out
 
 
+def op_insert_index_attached(c):
+    """where does an existing child belong?  (asking must not move it)"""
+    out = []
+    nm = ruleinfo.node_mappings()
+    for n in c.nodes:
+        if n.name in nm:
+            r = mrule.get_rule(n.name)
+            for ch in list(n.children):
+                out.append(_call(lambda r=r, n=n, ch=ch: r.child_insert_index(n, ch)))
+    return out
+
+
 def op_rule_queries(c):
     out = []
     nm = ruleinfo.node_mappings()
@@ -301,6 +320,7 @@ OPS = [
     ("find_child/find_all_children*", op_find_children), ("find_descendant/find_all_descendants*", op_find_descendants),
     ("find_*_by_path*", op_paths), ("child_index/get_ancestry*", op_child_index_ancestry),
     ("list_attributes/attribute_value*", op_attributes), ("child_insert_index*", op_insert_index),
+    ("child_insert_index(attached child)*", op_insert_index_attached),
     ("is_allowed_child/_is_in_path*", op_rule_queries), ("is_equal(copy)", op_is_equal),
 ]
 OPD = dict(OPS)
